@@ -163,6 +163,6 @@ def dominating_guard(fn: ast.FunctionDef, call: ast.Call, pred) -> bool:
     return search(fn.body)
 
 
-def item(name, ok, detail, where="", witness=None, func=""):
+def item(name, ok, detail, where="", witness=None, func="", shape=False):
     return Item(name, "proved" if ok else "refuted", "structural(termination)", 0.0, where=where, detail=detail,
-                mode="T", func=func, witness=None if ok else (witness or {"reason": detail}))
+                mode="T", func=func, witness=None if ok else (witness or {"reason": detail}), shape=shape)
